@@ -93,6 +93,18 @@ fn cells(tier: &str) -> Vec<Value> {
             }
         }
     }
+    // a reply that cannot be decoded, followed by further requests on the same handle / a clone
+    for decoder in ["bincode", "string"] {
+        for bad in ["truncated", "one-byte", "empty"] {
+            for handle in ["same", "clone-taken-before", "clone-taken-after"] {
+                if decoder == "string" && bad == "empty" {
+                    continue; // the empty string is a valid string
+                }
+                v.push(json!({"cell": id, "family": "undecodable-reply", "calls": 5, "reply_decoder": decoder, "bad_reply": bad, "next_request_on": handle}));
+                id += 1;
+            }
+        }
+    }
     // many requestor streams on one topic, one request each, all in flight together
     for comp in ["none", "zstd"] {
         let k = 18usize;
@@ -348,6 +360,126 @@ async fn cell_inner(addr: SocketAddr, set: Arc<CertSet>, topic: String, c: Value
     Ok(tag.into())
 }
 
+/// Requests 1..=5 on one requestor stream; the reply to request 2 cannot be decoded. Every call
+/// that returns Ok must return the value produced for exactly that call.
+async fn undecodable_cell(addr: SocketAddr, set: Arc<CertSet>, topic: String, c: Value) -> Result<String, Fail> {
+    use selium::std::codecs::BincodeCodec;
+    let decoder = c["reply_decoder"].as_str().unwrap().to_string();
+    let bad = c["bad_reply"].as_str().unwrap().to_string();
+    let handle = c["next_request_on"].as_str().unwrap().to_string();
+    let class = format!("undecodable:{decoder}:{bad}:{handle}");
+    let setup = |what: &str, e: String| fail("setup", what, format!("{what}: {e}"));
+    let raw = RawConn::connect(addr, &set.ca, Some(&set.client)).await.map_err(|e| setup("raw connect", e.to_string()))?;
+    let tn = TopicName::try_from(topic.as_str()).map_err(|e| setup("topic", e.to_string()))?;
+    let (mut rs, first) = raw.register(Frame::RegisterReplier(ReplierPayload { topic: tn })).await.map_err(|e| setup("register replier", e.to_string()))?;
+    if first != Some(Frame::Ok) {
+        return Err(setup("register replier", format!("answered {first:?}")));
+    }
+    // the reply produced for request n
+    fn good(decoder: &str, n: u64) -> Vec<u8> {
+        if decoder == "bincode" {
+            let mut v = n.to_le_bytes().to_vec();
+            v.extend((n * n + 0x0101_0101_0101).to_le_bytes());
+            v
+        } else {
+            // multi-byte characters, so that a cut inside one is invalid UTF-8
+            format!("r\u{e9}ponse-{n}-\u{20ac}\u{20ac}").into_bytes()
+        }
+    }
+    let dec = decoder.clone();
+    let badk = bad.clone();
+    let replier = tokio::spawn(async move {
+        while let Some(Ok(f)) = rs.next().await {
+            if let Frame::Message(p) = f {
+                let n: u64 = String::from_utf8_lossy(&p.message).parse().unwrap_or(0);
+                let mut body = good(&dec, n);
+                if n == 2 {
+                    match badk.as_str() {
+                        "truncated" => body.truncate(body.len() - 1),
+                        "one-byte" => body.truncate(1),
+                        _ => body.clear(),
+                    }
+                    if dec == "string" && badk == "one-byte" {
+                        body = vec![0xe2]; // the first byte of a three-byte character
+                    }
+                }
+                let _ = rs.send(Frame::Message(MessagePayload { headers: p.headers, message: Bytes::from(body) })).await;
+            }
+        }
+    });
+    let client = net::default_client(addr, &set).await.map_err(|e| setup("client connect", e.to_string()))?;
+    // the calls, generic over the decoded type
+    macro_rules! run_calls {
+        ($req:expr, $expect:expr) => {{
+            // (the handle that saw the undecodable reply keeps being used: state carried in it shows)
+            let mut req = $req;
+            let mut before = req.clone();
+            let mut after = None;
+            for n in 1u64..=5 {
+                if n == 3 && handle == "clone-taken-after" {
+                    after = Some(req.clone());
+                }
+                let h = match (n >= 3, handle.as_str()) {
+                    (true, "clone-taken-before") => &mut before,
+                    (true, "clone-taken-after") => after.as_mut().unwrap(),
+                    _ => &mut req,
+                };
+                let mut res = None;
+                for _attempt in 0..8 {
+                    let r = tokio::time::timeout(Duration::from_secs(15), h.request(n.to_string())).await.map_err(|_| fail("hang", &class, format!("request {n} neither returned nor timed out within 15 s")))?;
+                    // a plain timeout may be a slow machine (or the replier not bound yet): repeat
+                    if matches!(r, Err(SeliumError::RequestTimeout)) {
+                        continue;
+                    }
+                    res = Some(r);
+                    break;
+                }
+                match res {
+                    None => return Err(fail("setup", "timeouts", format!("request {n} timed out 8 times"))),
+                    Some(Ok(v)) => {
+                        if n == 2 {
+                            return Err(fail("undecodable-reply-returned-ok", &class, format!("the reply to request 2 was {bad} and cannot be decoded, yet request(2) returned Ok({v:?})")));
+                        }
+                        if v != $expect(n) {
+                            return Err(fail("wrong-reply", &class, format!("request({n}) returned Ok({v:?}); the reply produced for it decodes to {:?} (the reply to request 2 before it was undecodable: {bad})", $expect(n))));
+                        }
+                    }
+                    Some(Err(e)) => {
+                        if n != 2 {
+                            return Err(fail("good-reply-failed", &class, format!("request({n}) failed with {e} although its reply is well-formed (the reply to request 2 was undecodable: {bad})")));
+                        }
+                    }
+                }
+            }
+        }};
+    }
+    if decoder == "bincode" {
+        let req = client
+            .requestor(&topic)
+            .with_request_encoder(StringCodec)
+            .with_reply_decoder(BincodeCodec::<(u64, u64)>::default())
+            .with_request_timeout(Duration::from_millis(TIMEOUT_MS))
+            .map_err(|e| setup("timeout config", e.to_string()))?
+            .open()
+            .await
+            .map_err(|e| fail("open-error", &class, format!("requestor open failed: {e}")))?;
+        run_calls!(req, |n: u64| (n, n * n + 0x0101_0101_0101));
+    } else {
+        let req = client
+            .requestor(&topic)
+            .with_request_encoder(StringCodec)
+            .with_reply_decoder(StringCodec)
+            .with_request_timeout(Duration::from_millis(TIMEOUT_MS))
+            .map_err(|e| setup("timeout config", e.to_string()))?
+            .open()
+            .await
+            .map_err(|e| fail("open-error", &class, format!("requestor open failed: {e}")))?;
+        run_calls!(req, |n: u64| String::from_utf8(good("string", n)).unwrap());
+    }
+    replier.abort();
+    Ok("own-reply-or-error".into())
+}
+
 pub async fn run(tier: &str, replaying: bool) -> ! {
     let mut rep = Reporter::new("C04", tier, "exploration");
     let set = Arc::new(crate::certs::bundled());
@@ -360,6 +492,9 @@ pub async fn run(tier: &str, replaying: bool) -> ! {
         async move {
             let topic = format!("/c04ns/t{}x{}", c["cell"], salt.fetch_add(1, Ordering::SeqCst));
             let nontrivial = c["calls"].as_u64().unwrap() >= 2;
+            if c["family"].as_str() == Some("undecodable-reply") {
+                return (true, undecodable_cell(addr, set.clone(), topic.clone(), c.clone()).await);
+            }
             let mut r = cell_inner(addr, set.clone(), topic.clone(), c.clone()).await;
             for retry in 0..4 {
                 match &r {
@@ -384,7 +519,7 @@ pub async fn run(tier: &str, replaying: bool) -> ! {
     finish(
         rep,
         outs,
-        "every cell of: k concurrent request() calls (k<=3 quick, <=4 thorough) x every set partition of the calls over requestor streams (calls in one block share a stream through clones; every stream numbers its requests from 0) x every subset left unanswered x every permutation of the answered ones as reply order x (if something is unanswered) late replies after the timeout followed by a fresh request per stream x compression {none,gzip,zstd} (all three for k<=2, rotating above); plus 18 requestor streams with one request each, answered in reverse order. The raw replier first collects all k requests, so all are in flight together. non-trivial = at least two concurrent calls",
+        "every cell of: k concurrent request() calls (k<=3 quick, <=4 thorough) x every set partition of the calls over requestor streams (calls in one block share a stream through clones; every stream numbers its requests from 0) x every subset left unanswered x every permutation of the answered ones as reply order x (if something is unanswered) late replies after the timeout followed by a fresh request per stream x compression {none,gzip,zstd} (all three for k<=2, rotating above); plus 18 requestor streams with one request each, answered in reverse order; plus the undecodable-reply family: five sequential requests whose second reply cannot be decoded (truncated / one byte / empty) x reply decoder {bincode tuple, string} x the later requests issued on {the same handle, a clone taken before, a clone taken after the failure}: request 2 must fail and every other call must return exactly the value produced for it. The raw replier first collects all k requests, so all are in flight together. non-trivial = at least two concurrent calls",
         "replies are a pure function of the request payload, so a misdelivered reply is visible in the returned value",
         json!({"timeout_ms": TIMEOUT_MS}),
         replaying,
